@@ -25,8 +25,14 @@ TRACE = bool(os.environ.get('VERIF_TRACE'))
 WITNESS_CAP = 2000                # witness replays per job (all paths if fewer)
 
 
+GAP_MARK = 'StandInGap'
+
+
 def load_harness(pid):
-    return importlib.import_module('harness.' + pid)
+    mod = importlib.import_module('harness.' + pid)
+    from . import standin
+    standin.guard_harness_classes()
+    return mod
 
 
 def short(v, n=120):
@@ -87,7 +93,7 @@ def native_run(mod, job, inputs, named, watchdog=10.0):
 
 def default_on_bound(job, nat):
     """The interpreter hit a loop/recursion bound: the native run of the real code on the same inputs decides."""
-    if nat is not None and nat[0] == 'ret' and isinstance(nat[1], str) and nat[1].startswith('VIOLATION'):
+    if nat is not None and nat[0] == 'ret' and isinstance(nat[1], str) and nat[1].startswith('VIOLATION') and GAP_MARK not in nat[1]:
         return nat[1]
     return None
 
@@ -269,7 +275,8 @@ def _run_job(pid, job, opts, res, ctl=None):
     rng = random.Random(opts['seed'] * 1000003 + hash(job['name']) % 1000003)
     replay = job.get('replay', True)
     finding_key = getattr(mod, 'finding_key', None)
-    is_violation = getattr(mod, 'is_violation', lambda verdict: isinstance(verdict, str) and verdict.startswith('VIOLATION'))
+    is_violation = getattr(mod, 'is_violation', lambda verdict: isinstance(verdict, str) and verdict.startswith('VIOLATION')
+                           and GAP_MARK not in verdict)
     is_ok = getattr(mod, 'is_ok', lambda verdict: isinstance(verdict, str) and verdict.startswith('ok'))
     seen_viol = {}
     path_no = [0]
@@ -347,6 +354,10 @@ def _run_job(pid, job, opts, res, ctl=None):
                 key = finding_key(job, val, inputs, named) if finding_key else f'{job.get("family", job["name"])}|{val}'
                 res['violations'].append(dict(key=key, verdict=val, job=job_pub, inputs=jsonable_inputs(inputs), named=named,
                                               shown=sample['inputs']))
+                return
+            if isinstance(val, str) and GAP_MARK in val:
+                res['inconclusive'].append('the analysed code uses an attribute that a harness stand-in does not provide - a gap of the '
+                                           'harness, not a verdict about the property: ' + short(val, 200))
                 return
             res['inconclusive'].append('harness returned neither ok nor VIOLATION: ' + short(val))
             return
